@@ -65,6 +65,11 @@ func (m *DomainMatcher) Add(labels [][]byte) {
 		if i == 0 { // is leaf
 			currentNode.AddLeaf(label)
 		} else {
+			if child, ok := currentNode.GetChild(label); ok && child == nil {
+				// A parent domain was added as a leaf. It already
+				// matches this domain, don't replace it.
+				return
+			}
 			child := currentNode.GetOrAddChild(label)
 			currentNode = child
 		}
